@@ -67,7 +67,18 @@ func (g *Gen) StdCtx() CtxTerm {
 	for i := range la {
 		la[i] = any1()
 	}
-	names := []string{"s", "s2", "i", "j", "f", "t", "z", "e", "n", "x", "l", "ls", "la", "m", "im", "st", "p", "np", "u", "sv", "nested"}
+	nv := r.Intn(4)
+	lv := make([]VT, nv)
+	for i := range lv {
+		lv[i] = vBoxed(any1(), false)
+	}
+	nu := r.Intn(4)
+	lu := make([]VT, nu)
+	for i := range lu {
+		lu[i] = vUint(uint64(r.Intn(300) % 256))
+	}
+	names := []string{"s", "s2", "i", "j", "f", "t", "z", "e", "n", "x", "l", "ls", "la", "m", "im", "st", "p", "np", "u", "sv", "nested",
+		"ps", "pi", "pf", "sg", "ig", "lv", "lu"}
 	vals := []VT{pickS(), pickS(), pickI(), pickI(), pickF(), vBool(true), vInt(0), vStr(""), vNil(), vStr(taint + "x"),
 		vList("int", li...), vList("string", ls...), vList("any", la...),
 		vSMap([]string{"k", "a"}, []VT{any1(), pickS()}),
@@ -78,12 +89,14 @@ func (g *Gen) StdCtx() CtxTerm {
 		vUint(uint64(r.Intn(20))),
 		vBoxed(vStr("<b>safe</b>"), true),
 		vSMap([]string{"inner"}, []VT{vSMap([]string{"leaf", "lst"}, []VT{pickS(), vList("any", vStr("p"), vInt(3))})}),
+		vPtr(pickS()), vPtr(pickI()), vPtr(pickF()), vStringerStr(strs[r.Intn(len(strs))]), vStringerInt(ints[r.Intn(8)]),
+		vList("value", lv...), vList("uint", lu...),
 	}
-	g.scalars = []string{"s", "s2", "i", "j", "f", "t", "z", "e", "n", "x", "u"}
-	g.lists = []string{"l", "ls", "la"}
+	g.scalars = []string{"s", "s2", "i", "j", "f", "t", "z", "e", "n", "x", "u", "ps", "pi", "pf", "sg", "ig"}
+	g.lists = []string{"l", "ls", "la", "lv", "lu"}
 	g.maps = []string{"m"}
 	g.structs = []string{"st", "p"}
-	return CtxTerm{Names: names, Vals: vals}
+	return CtxTerm{Names: names, Vals: vals}.Varied(r)
 }
 
 func (g *Gen) allow(tag string) bool { return g.Features == nil || g.Features[tag] }
